@@ -28,7 +28,7 @@ package datatype
 //@ end
 //@ iface datatype.Type.Type(v) (r)
 //@   pure
-//@   requires valid(v)
+//@   requires known(v)
 //@   ensures id: r == dtype(v)
 //@ end
 //@ iface datatype.Type.Serialize(v) (r)
